@@ -148,6 +148,35 @@ CHECKS = {
        "are re-implemented by the harness for sequential runs; the kernel's flock is the real one.",
   tech="Lean 4 refinement proof (model -> Lock/RLock contract, per-operation simulation) + bounded-exhaustive "
        "differential with fault injection", ref="§5 C12"),
+ "C02": dict(
+  text="Lean theorem C02_mutex: in the small-step FileLock model (any number of processes, threads and lock objects "
+       "on one lock file, reentrant or not; blocking / non-blocking / timed acquire, plain and forced release, "
+       "SIGKILL of any process) no two threads are ever inside the critical section, for EVERY label sequence "
+       "(= every interleaving at shared-access granularity), proved from a 26-clause inductive invariant "
+       "(inv_init, inv_step); C02_success_is_hold: a successful acquirer owns the object's thread lock and its "
+       "descriptor is the one holding the OS lock, and nobody else holds. Tie: 2..4 real threads over 1..2 objects "
+       "run under a deterministic baton scheduler (schedule point at every thread-lock, open, flock, close, sleep, "
+       "critical-section step; random and PCT schedules); each execution's label trace must be accepted by the "
+       "model and an occupancy monitor watches the critical section; 4 (quick) / 16 free-running processes with an "
+       "O_EXCL marker validate the kernel assumption",
+  note=NOTE_COMMON + "Partial across processes: exclusion between processes is the kernel's flock (assumed; "
+       "exercised by the multi-process soak). threading.Lock/RLock replaced by a cooperative lock with the same "
+       "contract. Clients are well-formed (release only what they hold).",
+  tech="Lean 4 proof (inductive invariant over a labelled transition system, all interleavings) + trace "
+       "refinement check under a deterministic scheduler + multi-process soak", ref="§5 C02"),
+ "C13": dict(
+  text="Lean theorems about the same small-step model with the `kill p` label: inv_kill (the invariant, hence "
+       "C02_mutex among survivors, is preserved by killing any process at any point), C13_lock_not_left_behind (the "
+       "OS lock is never left with the dead process), C13_available_after_kill (once nothing holds the OS lock a "
+       "fresh thread/object acquires in three steps; the model has no on-disk ownership state). Tie = crash-point "
+       "enumeration on the real code: a child SIGKILLs itself at every line event of aiuti/filelock.py during "
+       "blocking / timed / nested-reentrant scripts while logging its shared-access labels; after each kill a fresh "
+       "process must acquire promptly and (labels + kill + fresh acquisition) must be accepted by the model; 0..2 "
+       "live contenders with an O_EXCL overlap detector",
+  note=NOTE_COMMON + "Partial: 'the kernel drops the flock when the process dies' is the assumption encoded by the "
+       "kill label, validated on the real kernel by the enumeration, not proved.",
+  tech="Lean 4 proof (invariant preserved by kill) + exhaustive crash-point enumeration with model replay",
+  ref="§5 C13"),
 }
 
 def main():
